@@ -106,6 +106,9 @@ ROLE_OF.update(
 )
 
 
+_ANCHOR_QUALS: list[set[str]] = []
+
+
 def anchor_quals() -> set[str]:
     """Every qualified name the rules may ask the index for: the string values of this module
     and the string literals / f-strings over `A.<NAME>` in sa/rules/*.py.  Used only to decide
@@ -114,6 +117,8 @@ def anchor_quals() -> set[str]:
     import glob
     import os
 
+    if _ANCHOR_QUALS:
+        return _ANCHOR_QUALS[0]
     env = {k: v for k, v in globals().items() if isinstance(v, str) and k.isupper()}
     out = {v for v in env.values() if v.startswith("cubed.")}
     here = os.path.dirname(os.path.abspath(__file__))
@@ -142,4 +147,5 @@ def anchor_quals() -> set[str]:
                     q = "".join(parts)
                     if q.startswith("cubed.") and " " not in q:
                         out.add(q)
+    _ANCHOR_QUALS.append(out)
     return out
